@@ -9,7 +9,7 @@ from __future__ import annotations
 
 import ast
 
-from ..core import AnalysisError, FuncInfo, walk_no_nested, norm
+from ..core import AnalysisError, FuncInfo, call_name, walk_no_nested, norm
 from ..tables import (codec_calls, const_dispatch, if_chains, is_subtype,
                       isinstance_types, str_consts_in_calls)
 
@@ -213,6 +213,26 @@ def r06b(ctx):
                                "(DateTime.decode when 'T' in the string, Date.decode otherwise)")
             ctx.instance("R06b", f"{rf.file}:{rf.ident}", f"value type {vt}: attribute + codec agreement with writer", ok=ok,
                          nontrivial=True, line=rtab[vt][4].node.lineno if vt in rtab else None)
+    # numbers: the readers convert the stored text exactly (Decimal), never through float
+    for rf, var in readers + [(repo.func("Meta._get_meta_value_full"), "value_type")]:
+        for consts, arm in const_dispatch(rf, var, repo):
+            if "float" not in consts:
+                continue
+            conv = {call_name(c) for s_ in arm.body for c in walk_no_nested(s_) if isinstance(c, ast.Call) and call_name(c) in ("Decimal", "float", "Float", "int")}
+            ok = "Decimal" in conv and not ({"float", "Float"} & conv)
+            ctx.instance("R06b", f"{rf.file}:{rf.ident}", f"numeric arm converts with {sorted(conv)}", ok=ok, nontrivial=True, line=arm.node.lineno)
+            if not ok:
+                ctx.report("R06b", rf, arm.node, f"numeric arm converts with {sorted(conv)}",
+                           "numbers are written as str(value) and must be read back exactly with Decimal (int when integral); a float conversion "
+                           "silently rounds large integers and long decimals")
+    wnum = [arm for types, vt, encs, arm in tarms if "int" in types]
+    for arm in wnum:
+        vals = [ast.unparse(a.value) for s_ in arm.body for a in walk_no_nested(s_) if isinstance(a, ast.Assign) and isinstance(a.targets[0], ast.Name)
+                and a.targets[0].id == "value"]
+        ok = vals == ["str(value)"]
+        ctx.instance("R06b", f"{w.file}:{w.ident}", f"numeric value written as {vals}", ok=ok, nontrivial=True, line=arm.node.lineno)
+        if not ok:
+            ctx.report("R06b", w, arm.node, f"numeric value written as {vals}", "numbers must be written as str(value) (exact for int and Decimal)")
     # meta carrier
     mw = repo.func("Meta.set_user_defined_metadata")
     mr = repo.func("Meta._get_meta_value_full")
@@ -357,6 +377,10 @@ SEEDS = [
          'self.set_attribute("office:value-type", "time")', 'self.set_attribute("office:value-type", "date")', "R06c"),
     Seed("date-value attribute no longer cleared", "fault", _ET,
          '            "office:date-value",\n            "office:string-value",', '            "office:string-value",', "R06b"),
+    Seed("typed reader goes through float", "fault", _ET, "            value = Decimal(read_number)\n", "            value = Decimal(str(float(read_number)))\n", "R06b"),
+    Seed("Cell.value reads numbers as float", "fault", "src/odfdo/cell.py",
+         'value_decimal = Decimal(str(self.get_attribute_string("office:value")))', 'value_decimal = Decimal(float(str(self.get_attribute_string("office:value"))))', "R06b"),
+    Seed("numbers written with repr of float", "fault", _ET, "            if text is None:\n                text = str(value)\n            value = str(value)", "            if text is None:\n                text = str(value)\n            value = str(float(value))", "R06b"),
     unparse_seed(_ET), unparse_seed("src/odfdo/meta.py"), unparse_seed("src/odfdo/cell.py"),
     Seed("reader rewritten with elif chain", "neutral", _ET,
          '        if value_type == "string":\n            value = self.get_attribute("office:string-value")',
